@@ -10,8 +10,8 @@ TRUST = [
 
 PROPS = {
     "C05": {
-        "rules": ["KEY", "LOOKUP", "FIFO", "REGISTRATION", "MSGKIND", "IDALLOC", "RSP-VARIANT"],
-        "filters": {"IDALLOC": r":rmw|:injective|floor"},
+        "rules": ["KEY", "LOOKUP", "FIFO", "REGISTRATION", "MSGKIND", "IDALLOC", "RSP-VARIANT", "SHORTFORM-EXACT"],
+        "filters": {"IDALLOC": r":rmw|:injective|floor", "SHORTFORM-EXACT": r"AckRx|floor"},
         "explanation": "Static rules over MIR: KEY (symbolic key expressions of tx_action_id / rx_action_id agree per request->acknowledgement pair of the standard, injective bit layout), "
                        "LOOKUP (every completion is sent on the sender removed at linear_search_by_key(awaiting_ack, rx_action_id(same packet))), FIFO (who may mutate Session collections and how), "
                        "REGISTRATION (per-path: written => exactly one registration; refused => none), MSGKIND (message kind / key / channel per handle operation).",
@@ -19,14 +19,15 @@ PROPS = {
         "assumptions": TRUST,
     },
     "C08": {
-        "rules": ["ACK-TABLE", "ACK-BODY", "ACK-CTRL", "ACK-COUNT"],
+        "rules": ["ACK-TABLE", "ACK-BODY", "ACK-CTRL", "ACK-COUNT", "WRITE"],
+        "filters": {"WRITE": r"asyncwrite|write_all|site:ack|floor"},
         "explanation": "Per-path effect count and control-dependence analysis of the inbound handler's PUBLISH and PUBREL arms on MIR: reply table, identifier provenance, "
                        "acknowledgement decisions may depend only on packet type / QoS / packet identifier, exactly the prescribed acknowledgement on every normal path, one write per ack().",
         "not_decided": "nothing material: the property is a per-path effect count in one handler (wire order follows from acknowledgements being awaited in place by the single context task)",
         "assumptions": TRUST,
     },
     "C09": {
-        "rules": ["Q2DEDUP", "ACK-TABLE", "FIFO"],
+        "rules": ["Q2DEDUP", "ACK-TABLE", "FIFO", "ADAPTER"],
         "filters": {"FIFO": r"unreleased|floor"},
         "explanation": "Necessary structural condition on MIR: delivery of an inbound QoS 2 PUBLISH must be control dependent on a membership test of Session-owned state keyed by the packet identifier, "
                        "with add on first delivery and removal in the PUBREL arm; PUBREC/PUBCOMP reply table.",
@@ -34,8 +35,8 @@ PROPS = {
         "assumptions": TRUST,
     },
     "C10": {
-        "rules": ["QUOTA-WRITERS", "QUOTA-DEC", "QUOTA-INC", "FIRST-RESPONSE", "DEFAULTS"],
-        "filters": {"FIRST-RESPONSE": r"handle_connack-first|floor", "DEFAULTS": r"ReceiveMaximum|receive_maximum|floor"},
+        "rules": ["QUOTA-WRITERS", "QUOTA-DEC", "QUOTA-INC", "FIRST-RESPONSE", "DEFAULTS", "SHORTFORM-EXACT", "HANDSHAKE-QOS2"],
+        "filters": {"FIRST-RESPONSE": r"handle_connack-first|floor", "DEFAULTS": r"ReceiveMaximum|receive_maximum|floor", "SHORTFORM-EXACT": r"AckRx|floor", "HANDSHAKE-QOS2": r"pubrel-always|pubrel-after-good|floor"},
         "explanation": "Who-may-write and guarded-arithmetic rules over Connection.send_quota on MIR: writers, decrement guarded by F != 0 with a refusing F == 0 edge, one decrement before every PUBLISH write, "
                        "increments bounded by F < M, set of releasing acknowledgements = {PUBACK, PUBCOMP, PUBREC >= 0x80}, release independent of lookup/delivery.",
         "not_decided": "numeric claim over concrete long histories (follows from the invariant F + outstanding = M implied by the rules, not separately explored)",
@@ -43,24 +44,24 @@ PROPS = {
         "arith_rules": [],
     },
     "C12": {
-        "rules": ["MAXSIZE-PRED", "MAXSIZE-FIRST", "MAXSIZE-SOURCE", "FIRST-RESPONSE"],
-        "filters": {"FIRST-RESPONSE": r"handle_connack-first|floor"},
+        "rules": ["MAXSIZE-PRED", "MAXSIZE-FIRST", "MAXSIZE-SOURCE", "FIRST-RESPONSE", "WRITE"],
+        "filters": {"FIRST-RESPONSE": r"handle_connack-first|floor", "WRITE": r"asyncwrite|write_all|floor"},
         "explanation": "Decision table of validate_packet_size by path enumeration (accept iff absent or len <= max), dominance of the size check over every effect in each outbound arm, "
                        "effect-freedom of the refusing edge, identity of checked and written slice, single source of the limit (CONNACK).",
         "not_decided": "that L is the encoder's true output length (C01)",
         "assumptions": TRUST,
     },
     "C06": {
-        "rules": ["HANDSHAKE-DUP", "HANDSHAKE-QOS2", "THRESH", "MSGKIND", "QUOTA-DEC"],
-        "filters": {"QUOTA-DEC": r"quota-read-only-for-publish|zero-edge-refuses|floor"},
+        "rules": ["HANDSHAKE-DUP", "HANDSHAKE-QOS2", "THRESH", "MSGKIND", "QUOTA-DEC", "SHORTFORM-EXACT", "LOOKUP", "ENCODE-ONCE"],
+        "filters": {"QUOTA-DEC": r"quota-read-only-for-publish|zero-edge-refuses|floor", "SHORTFORM-EXACT": r"AckRx|floor", "ENCODE-ONCE": r"publish|floor"},
         "explanation": "Dominance rules on MIR: the DUP bit is set on the stored copy only (after the completed first write, before the push to the retransmission queue), the PUBREL identifier derives from the received PUBREC, "
                        "the PUBREL enqueue is dominated by the Continue edge of the `?` over the PUBREC reason check, QoS 0 completes after its write, reason thresholds are exactly 0x80 with Err on the failing side, one PUBLISH enqueue per QoS branch.",
         "not_decided": "interleavings with other operations and delayed polling between the two QoS 2 phases (schedules); content equality of topic/payload (C01)",
         "assumptions": TRUST,
     },
     "C07": {
-        "rules": ["SUBREG", "DISPATCH", "ADAPTER", "FIFO", "MULTI"],
-        "filters": {"MULTI": r"PublishRx"},
+        "rules": ["SUBREG", "DISPATCH", "ADAPTER", "FIFO", "MULTI", "OWN", "IDALLOC"],
+        "filters": {"MULTI": r"PublishRx", "OWN": r"no-explicit-close|sender-never-cloned|floor", "IDALLOC": r"subscription_identifier|floor"},
         "explanation": "Registration of (subscription identifier, stream) on every path that writes the SUBSCRIBE; delivery receiver = keyed lookup by the received subscription identifier; payload moved whole (no field write, no &mut use); "
                        "subscriptions removed only on the failed-delivery edge; who-may-mutate table; decision table of SubscribeStream::poll_next by path enumeration.",
         "not_decided": "order / exactly-once over histories with lagging or dropped streams (executions); a PUBLISH carrying several Subscription Identifiers (known finding, codec keeps one)",
@@ -74,8 +75,8 @@ PROPS = {
         "assumptions": TRUST,
     },
     "C13": {
-        "rules": ["EXITS", "EXITS-EXPLICIT", "EXITS-OK", "FIRST-RESPONSE", "THRESH", "CONV", "WRITE"],
-        "filters": {"WRITE": r"WRITE:site:|floor"},
+        "rules": ["EXITS", "EXITS-EXPLICIT", "EXITS-OK", "FIRST-RESPONSE", "THRESH", "CONV", "WRITE", "SHORTFORM-EXACT", "REPARSE"],
+        "filters": {"WRITE": r"WRITE:site:|floor", "SHORTFORM-EXACT": r"DisconnectRx|floor"},
         "explanation": "Complete table of the exits of Context::run (recursively through handle_packet / handle_message / ack / retransmit), each classified by the residual error type of its `?` and what produced it; explicit returns; "
                        "required Ok(()) exits and what they are control dependent on; first-response table of connect()/authorize(); reason thresholds; From<..> for MqttError variant table.",
         "not_decided": "'at every reachable session state': the exits do not consult session state, which is stated rather than explored",
@@ -89,21 +90,22 @@ PROPS = {
         "assumptions": TRUST,
     },
     "C15": {
-        "rules": ["EXITS", "QUOTA-INC", "DISPATCH"],
+        "rules": ["EXITS", "QUOTA-INC", "DISPATCH", "REGISTRATION", "ENQUEUE-ALWAYS", "FIFO"],
         "explanation": "No exit of run() is caused by a failed completion or delivery (EXITS classifies every `?`); the quota release does not depend on the lookup or on the completion having been delivered; a failed delivery only removes that subscription.",
         "not_decided": "'other operations complete with their own acknowledgements' under all interleavings (follows from KEY/LOOKUP of C05 once the context keeps running)",
         "assumptions": TRUST,
     },
     "C17": {
-        "rules": ["RESUME-PAIR", "RESUME-EXPIRY", "RESUME-ORDER", "HANDSHAKE-DUP", "FIFO"],
-        "filters": {"FIFO": r"retrasmit_queue|floor"},
+        "rules": ["RESUME-PAIR", "RESUME-EXPIRY", "RESUME-ORDER", "HANDSHAKE-DUP", "FIFO", "LEGAL-ARM", "DEFAULTS"],
+        "filters": {"FIFO": r"retrasmit_queue|floor", "LEGAL-ARM": r"ConnackRx:SessionExpiryInterval|floor", "DEFAULTS": r"SessionExpiryInterval|session_expiry|floor"},
         "explanation": "Pairing of every class pushed to the retransmission queue with a keyed removal in the arm of its acknowledgement; normalised truth table of session_expired; dominance/ordering of is_reconnect, session_expired, reset_session, retransmit and the select loop in run(); "
                        "retransmit iterates front to back and awaits each unchanged write; stored copy carries DUP.",
         "not_decided": "behaviour over disconnection points x histories; wall-clock arithmetic",
         "assumptions": TRUST,
     },
     "C03": {
-        "rules": ["PENDING", "EOS", "MINHDR", "REPARSE", "BUFFERED", "PANIC"],
+        "rules": ["PENDING", "EOS", "MINHDR", "REPARSE", "BUFFERED", "VARINT-ERR", "PANIC"],
+        "filters": {"PANIC": r"packet_stream|VarSizeInt as std::convert::TryFrom<&\\\\[u8\\\\]>|ledger-link:MINHDR"},
         "explanation": "Necessary structural clauses of framing on MIR: forward dataflow over RxPacketStream::poll_next proving that Poll::Pending is returned only after an inner poll returned Pending for the same context; "
                        "every Ready(None) control dependent on the transport's own result or a malformed length (read error / 0 bytes into a provably non-empty destination); the gate to the length parse is size >= 2; "
                        "index and length arithmetic of the reassembly machine discharged site by site in both arithmetic modes (PANIC ledger).",
@@ -113,7 +115,7 @@ PROPS = {
         "filters": {"PANIC": r"packet_stream|VarSizeInt as std::convert::TryFrom<&\[u8\]>|ledger-link:MINHDR"},
     },
     "C04": {
-        "rules": ["PANIC", "DECODE-WITNESS", "VARIANT-DOMAIN", "FIRST-RESPONSE", "EXITS", "WRITE", "EOS", "PENDING"],
+        "rules": ["PANIC", "DECODE-WITNESS", "VARIANT-DOMAIN", "VARINT-GUARD", "VARINT-ERR", "FIRST-RESPONSE", "EXITS", "WRITE", "EOS", "PENDING", "BUFFERED", "REARM"],
         "explanation": "Panic ledger: every panic-capable site (MIR asserts, unwrap/expect, panic!/unreachable!, indexing, curated panicking bytes API) in bodies reachable from the inbound roots is enumerated and discharged by a dominating guard, a direct length comparison, "
                        "constant folding, the in-memory-length argument or a named ledger entry; fixed-width decoders carry a length witness; partial functions over packet enums are called inside their domain; first-response and run() exits are error returns; transport faults propagate.",
         "not_decided": "non-panicking misbehaviour on garbage beyond what EXITS classifies; panics inside dependencies not in the curated list; ledger entries are reasoned, not proved (each is one named site with a reason)",
@@ -128,7 +130,8 @@ PROPS = {
         "assumptions": TRUST,
     },
     "C01": {
-        "rules": ["LM", "ORDER", "BITS", "IDS", "LEGAL", "MANDATORY", "SETTER", "WRITE", "MSGKIND", "VARINT-THRESH", "REGISTRATION"],
+        "rules": ["LM", "ORDER", "BITS", "IDS", "LEGAL", "MANDATORY", "SETTER", "WRITE", "MSGKIND", "ENCODE-ONCE", "ENQUEUE-ALWAYS", "VARINT-THRESH", "REGISTRATION"],
+        "filters": {"LEGAL": r"LEGAL:tx:", "MANDATORY": r"Tx|floor"},
         "explanation": "Encoder structure on MIR, for all optional fields / packet types / call sites at once: length mirror (every field written is counted in the remaining / property length it belongs to and vice versa, every counted length prefix is written, "
                        "measured types = written types), item order against the standard, bit layouts of the flag bytes, evaluated packet / property identifiers and fixed headers, legal property sets, mandatory parts (generated build() + validate() error paths), "
                        "option setters forward to the builder field of the same name and return Self, single writer (write_all over the whole slice, awaited in place), one encode per message buffer, exactly one write per non-refused request, VarSizeInt thresholds.",
@@ -137,7 +140,8 @@ PROPS = {
         "filters": {"LEGAL": r"LEGAL:tx:", "MANDATORY": r"Tx|floor"},
     },
     "C02": {
-        "rules": ["LEGAL", "IDS", "REASONS", "DEFAULTS", "MANDATORY", "SHORTFORM", "SHORTFORM-EXACT", "MULTI", "ACCESSOR", "PUBID", "BITS", "REPARSE"],
+        "rules": ["LEGAL", "LEGAL-ARM", "IDS", "REASONS", "DEFAULTS", "MANDATORY", "SHORTFORM", "SHORTFORM-EXACT", "MULTI", "ACCESSOR", "PUBID", "BITS", "REPARSE", "VARINT-ERR"],
+        "filters": {"LEGAL": r"LEGAL:rx:|floor", "MANDATORY": r"Rx|floor", "BITS": r"publish-decode|type-nibble|floor"},
         "explanation": "Decoder structure on MIR: accepted property set per receive decoder = the standard's legal set (order-free property loop), wire type per property identifier, reason enums = TryFrom<u8> maps = the standard's code sets, "
                        "defaults of absent properties, mandatory parts of inbound packets, shortened forms (tail decodes do not dominate every success exit), multiplicity (collections for repeatable properties), "
                        "accessors read exactly the field they are named after, PUBLISH header masks / shifts, packet identifier iff QoS > 0.",
